@@ -386,6 +386,72 @@ def resource_leg(c, quick):
                     return
 
 
+def merge_in_leg(c, rng, n):
+    """merge_in is a sequence of Set steps of the model (one per pair of the source, in the source's order): after random
+    histories on two twin containers one gets `merge_in(source)`, the other the same pairs set one by one (each of those
+    steps is what Trace_Attributes validates) - contents, order and drop counter agree. Sources: a dict, and containers
+    with the same / another / no value limit, bounded and unbounded."""
+    from deep.api.attributes import BoundedAttributes
+    shown = 0
+    for it in range(n):
+        cap = rng.choice([None, 0, 1, 2, 3, 5])
+        twins = [BoundedAttributes(max_length=cap, immutable=False, max_value_len=VALUE_LIMIT) for _ in range(2)]
+        keys = ['k%d' % i for i in range(1, 7)]
+        hist = []
+        for _ in range(rng.randint(0, 6)):
+            k, vc = rng.choice(keys), rng.choice(sorted(VALUES))
+            hist.append((k, vc))
+            for b in twins:
+                apply_op(b, 'set', k, vc)
+        pairs = [(rng.choice(keys + ['empty_key', 'nonstr_key']), rng.choice(sorted(VALUES))) for _ in range(rng.randint(1, 5))]
+        kind = rng.choice(['dict', 'same_limit', 'other_limit', 'no_limit', 'bounded_source'])
+        if kind == 'dict':
+            source = {}
+        else:
+            source = BoundedAttributes(max_length=2 if kind == 'bounded_source' else None, immutable=False,
+                                       max_value_len={'same_limit': VALUE_LIMIT, 'other_limit': VALUE_LIMIT + 3,
+                                                      'no_limit': None, 'bounded_source': VALUE_LIMIT}[kind])
+        for k, vc in pairs:
+            try:
+                source[KEYS.get(k, k)] = VALUES[vc]
+            except TypeError:
+                pass          # (a dict refuses an unhashable key itself)
+        frozen = rng.random() < 0.1
+        if frozen:
+            for b in twins:
+                b._immutable = True
+        outcome = []
+        for b, how in zip(twins, ('merge_in', 'one by one')):
+            try:
+                if how == 'merge_in':
+                    b.merge_in(source)
+                else:
+                    for k, v in list(source.items()):
+                        b[k] = v
+                outcome.append('done')
+            except TypeError:
+                outcome.append('refused')
+        a, b = twins
+        bad = None
+        if outcome[0] != outcome[1]:
+            bad = 'merge_in %s, setting the pairs one by one %s' % tuple(outcome)
+        elif list(a.items()) != list(b.items()) or a.dropped != b.dropped:
+            bad = 'merge_in leaves %s dropped=%d, the same pairs set one by one %s dropped=%d' % (
+                list(a.items()), a.dropped, list(b.items()), b.dropped)
+        elif cap is not None and len(a) > cap:
+            bad = '%d entries in a container of capacity %d' % (len(a), cap)
+        c.traces_validated += 1
+        c.note_case(key=('merge-in', cap, kind, str(hist), str(pairs)), nontrivial=len(hist) + len(pairs) >= 3)
+        if bad:
+            path = c.save_replay({'leg': 'merge_in', 'capacity': cap, 'history': hist, 'source_kind': kind, 'source': pairs,
+                                  'frozen': frozen, 'problems': [bad]})
+            if c.violation('merge_in of a %s source into a container of capacity %s (after %d sets): %s'
+                           % (kind, cap, len(hist), bad), path):
+                shown += 1
+                if shown >= 4:
+                    return
+
+
 def limits_leg(c):
     """Containers of ANY configuration: the value limit as a parameter (the recorded runs use one limit). A limit that
     is no limit at all (negative) is refused like a negative capacity is, or - if accepted - still only ever shortens a
@@ -479,6 +545,7 @@ def run(c):
     c.assumptions = ['Freeze is modelled by setting the flag the constructor sets last',
                      'environment-provided attributes are given through DEEP_RESOURCE_ATTRIBUTES / DEEP_SERVICE_NAME']
     attributes_leg(c, rng, quick)
+    merge_in_leg(c, rng, 400 if quick else 40000)
     limits_leg(c)
     executable_name_leg(c)
     resource_leg(c, quick)
